@@ -152,7 +152,7 @@ def _base_phases_on_cut(g):
         if np.any(np.abs(ph) >= lim):
             return True
     for p in base.data:
-        if np.ndim(p) == 0 and abs(float(np.real(p))) >= lim:
+        if np.ndim(p) <= 1 and np.any(np.abs(np.real(np.asarray(p, dtype=complex))) >= lim):
             return True
     return False
 
@@ -375,6 +375,8 @@ def check_batched(spec):
         return skip("skipped_large")
     if not op.has_matrix:
         return skip("no-matrix")
+    if _base_phases_on_cut(g):
+        return skip("fractional-power-on-branch-cut")
     singles = [cat.build(cat.with_params(g, r)) for r in rows]
     H = [_dense(s.matrix()) for s in singles]
     for o in A.orders(wires):
